@@ -37,7 +37,8 @@ pub const F_SOAK_LOOP: usize = 23;
 pub const F_CLOCK_TICK: usize = 24;
 pub const F_ROLL_CALL: usize = 25;
 pub const F_RAMP: usize = 26;
-pub const N_FAULTS: usize = 27;
+pub const F_THREAD_HOP: usize = 27;
+pub const N_FAULTS: usize = 28;
 pub const FAULT_NAMES: [&str; N_FAULTS] = [
     "drop",
     "dup",
@@ -66,6 +67,7 @@ pub const FAULT_NAMES: [&str; N_FAULTS] = [
     "clock-ticks-inside-calls(runs)",
     "roll-call",
     "ramp",
+    "thread-hop",
 ];
 
 /// Per-property weights. One world, shifted towards the property's subject.
@@ -94,6 +96,36 @@ pub struct Preset {
     pub long_pm: u64,
     /// how much more often soak patterns are enabled (leaks and overflows are C18's business)
     pub soak_boost: u64,
+}
+
+/// Thread hops ("the scanner is moved to another thread between two calls") are decided after the
+/// world has produced the trace, from their own PRNG lane: which thread makes a call is independent
+/// of what the wire delivers. A few windows of 1..8 (rarely 40) calls in about one run in 25 (one in
+/// 10 for C18, whose panic monitor is the likeliest beneficiary).
+pub fn add_hops(t: &mut Trace, r: &mut Rng, p: &Preset, stats: &mut Probes) {
+    let pm = if p.name == "C18" { 100 } else { 40 };
+    if r.below(1000) >= pm || t.events.is_empty() {
+        return;
+    }
+    let windows = 1 + r.below(3);
+    let mut any = false;
+    for _ in 0..windows {
+        let pos = r.below(t.events.len() as u64 + 1) as usize;
+        let n = *r.pick(&[1u8, 1, 2, 2, 3, 5, 8, 40]);
+        // not inside the window of a soak loop: the loop would re-arm the hop in every round
+        let inside_soak = t.events.iter().enumerate().any(|(j, e)| match e {
+            Ev::Repeat { k, .. } => pos + (*k as usize) > j && pos <= j,
+            _ => false,
+        });
+        if inside_soak {
+            continue;
+        }
+        t.events.insert(pos, Ev::Hop { n });
+        any = true;
+    }
+    if any {
+        stats.faults_fired[F_THREAD_HOP] += 1;
+    }
 }
 
 pub fn preset_for(prop: &str) -> Preset {
